@@ -3,6 +3,7 @@ import Mdsort.Proofs.Captures
 import Mdsort.Proofs.WorldFds
 import Mdsort.Proofs.ExecStdin
 import Mdsort.Proofs.WorldFdsEx
+import Mdsort.Proofs.ExecStatus
 
 /-!
 # C13 - commands get exactly the configured arguments and a clean process environment
@@ -28,7 +29,7 @@ theorem C13_argv (macros : Option (List (Bytes × Bytes))) (ml : MatchList) (i :
 exit code for 1..126 and 128.., -1 for 127, 128 + signal for a signalled child, -1 when /dev/null,
 fork or waitpid fail. -/
 theorem C13_status (fdin : Option Handle) (orc : Nat → Call → Res) :
-    ∃ devnullOk forkRes waitRes, (runOracle orc (execP fdin) 0 []).1 = Proofs.execValue devnullOk forkRes waitRes :=
+    ∃ devnullOk forkRes waitRes, (runOracle orc (execP fdin) 0 []).1 = Model.execValue devnullOk forkRes waitRes :=
   Proofs.execP_value fdin orc
 
 /-- A non-zero value of `exec()` is an error of the exec action ... -/
@@ -45,6 +46,124 @@ theorem C13_error_stops_actions (env : PEnv) (mh : Match) (rest rest' : MatchLis
     (runOracle orc (matchesExec env (mh :: rest) st) 0 []).1.2 = true ∧
     (runOracle orc (matchesExec env (mh :: rest) st) 0 []).2 = (runOracle orc (matchesExec env (mh :: rest') st) 0 []).2 :=
   Proofs.error_stops_list env mh rest rest' st orc he
+
+/-! ## The status mapping, for every wait status
+
+`Model.execStatus` is the tail of `exec()` (util.c 121-128) on the raw wait status, `Model.wifexited` / `wexitstatus` /
+`wifsignaled` / `wtermsig` the macros of `<sys/wait.h>`; `Proofs.waitKind` reads a status as `exited code`, `signaled sig`
+or `stopped` (the last is never reported by `waitpid(pid, &status, 0)`).  `Proofs.childOutcome devnullOk forkRes waitRes`
+is `cannotRun` when /dev/null cannot be opened, `fork` fails or `waitpid` fails, and `waited kind` otherwise. -/
+
+/-- `exec()` on every wait status: 0 iff the child exited with 0; negative (fatal) iff it exited with 127; positive iff it
+exited with 1..126 or 128..255, was killed by a signal (then the value is 128 + signal) or is reported as stopped; and the
+value for an exit code other than 127 is that code. -/
+theorem C13_exec_status_mapping (s : Nat) :
+    (execStatus s = 0 ↔ Proofs.waitKind s = .exited 0) ∧
+    (execStatus s < 0 ↔ Proofs.waitKind s = .exited 127) ∧
+    (0 < execStatus s ↔ (∃ c, Proofs.waitKind s = .exited c ∧ c ≠ 0 ∧ c ≠ 127) ∨ (∃ g, Proofs.waitKind s = .signaled g) ∨
+      Proofs.waitKind s = .stopped) ∧
+    (∀ c, Proofs.waitKind s = .exited c → c < 256 ∧ (c ≠ 127 → execStatus s = (c : Int))) ∧
+    (∀ g, Proofs.waitKind s = .signaled g → 1 ≤ g ∧ g ≤ 126 ∧ execStatus s = ((128 + g : Nat) : Int)) :=
+  ⟨Proofs.execStatus_eq_zero_iff s, Proofs.execStatus_neg_iff s, Proofs.execStatus_pos_iff s,
+   fun _ h => ⟨Proofs.waitKind_exited_lt h, Proofs.execStatus_exited h⟩,
+   fun _ h => ⟨(Proofs.waitKind_signaled_range h).1, (Proofs.waitKind_signaled_range h).2, Proofs.execStatus_signaled h⟩⟩
+
+/-- The statuses the checks exercise, as raw wait statuses (`code * 256`, `signal`, `signal + 128` with a core dump). -/
+example :
+    [0, 1, 2, 126, 127, 128, 129, 200, 255].map (fun c => execStatus (c * 256)) = [0, 1, 2, 126, -1, 128, 129, 200, 255] ∧
+    [15, 9, 11, 11 + 128, 6 + 128].map execStatus = [143, 137, 139, 139, 134] := by decide
+
+/-- A child whose `execvp` fails exits with `Model.execvpFailedStatus` = 127 whatever the reason (ENOENT, EACCES, ...):
+for the parent that is the fatal value -1, never a positive "ran and said no". -/
+theorem C13_execvp_failure_is_fatal : execStatus (execvpFailedStatus * 256) = -1 ∧ Proofs.waitKind (execvpFailedStatus * 256) = .exited 127 := by
+  decide
+
+/-- Reading the three results `exec()` consumes. -/
+theorem C13_child_outcome (d : Bool) (f w : Res) :
+    (∀ k, Proofs.childOutcome d f w = .waited k ↔ d = true ∧ ∃ pid s, f = .ok pid ∧ w = .ok s ∧ Proofs.waitKind s = k) ∧
+    (Proofs.childOutcome d f w = .cannotRun ↔ d = false ∨ (∀ pid, f ≠ .ok pid) ∨ (∀ s, w ≠ .ok s)) ∧
+    Model.execValue d f w = Proofs.outcomeValue (Proofs.childOutcome d f w) :=
+  ⟨Proofs.childOutcome_waited_iff d f w, Proofs.childOutcome_cannotRun_iff d f w, Proofs.execValue_outcome d f w⟩
+
+/-- **The `command` condition, for every wait status.**  `Model.eval` on a `command` node whose strings interpolate to
+`av`, in an environment whose command oracle returns what `exec()` derives from the results `d` (/dev/null opened), `f`
+(`fork`), `w` (`waitpid`) - by `C13_status` every value of `exec()` has this form:
+
+* the condition MATCHES iff the child was waited for and exited with 0;
+* it does NOT match iff the child was waited for and exited with a status in 1..126 or 128..255, or was killed by a
+  signal (or is reported stopped);
+* it is an ERROR iff /dev/null could not be opened, `fork` failed, `waitpid` failed, or the child exited with 127 (what
+  the child does when `execvp` fails);
+
+and in every case the match list is left as it was. -/
+theorem C13_command_status (env : Env) (root : Msg) (lno : Nat) (argv av : List Bytes) (part : Nat) (m : Msg) (st : St)
+    (hav : argv.mapM (interpolate st.ml none) = some av)
+    (d : Bool) (f w : Res) (hrc : env.command av = Model.execValue d f w) :
+    let o := Proofs.childOutcome d f w
+    let r := eval env root (.command lno argv) part m st
+    r.2 = st ∧
+    (r.1 = .match ↔ o = .waited (.exited 0)) ∧
+    (r.1 = .nomatch ↔ (∃ c, o = .waited (.exited c) ∧ c ≠ 0 ∧ c ≠ 127) ∨ (∃ g, o = .waited (.signaled g)) ∨ o = .waited .stopped) ∧
+    (r.1 = .error ↔ o = .cannotRun ∨ o = .waited (.exited 127)) := by
+  have hv : eval env root (.command lno argv) part m st = (Proofs.outcomeTri (Proofs.childOutcome d f w), st) := by
+    rw [Proofs.eval_command, hav]
+    simp only [hrc, Proofs.execValue_outcome, Proofs.commandTri_outcome]
+  simp only [hv]
+  exact ⟨trivial, Proofs.outcomeTri_match_iff _, Proofs.outcomeTri_nomatch_iff _, Proofs.outcomeTri_error_iff _⟩
+
+/-- The same with the command run by `Model.execP` against ARBITRARY call results `orc` (call 0 opens /dev/null, call 1
+is `fork`, call 2 `waitpid`). -/
+theorem C13_command_status_run (env : Env) (root : Msg) (lno : Nat) (argv av : List Bytes) (part : Nat) (m : Msg) (st : St)
+    (hav : argv.mapM (interpolate st.ml none) = some av) (orc : Nat → Call → Res)
+    (hrc : env.command av = (runOracle orc (execP none) 0 []).1) :
+    let o := Proofs.childOutcome (match orc 0 (.openPath (ofString "/dev/null")) with | .ok _ => true | _ => false)
+      (orc 1 .fork) (orc 2 .waitpid)
+    let r := eval env root (.command lno argv) part m st
+    r.2 = st ∧
+    (r.1 = .match ↔ o = .waited (.exited 0)) ∧
+    (r.1 = .nomatch ↔ (∃ c, o = .waited (.exited c) ∧ c ≠ 0 ∧ c ≠ 127) ∨ (∃ g, o = .waited (.signaled g)) ∨ o = .waited .stopped) ∧
+    (r.1 = .error ↔ o = .cannotRun ∨ o = .waited (.exited 127)) :=
+  C13_command_status env root lno argv av part m st hav _ _ _ (hrc.trans (Proofs.execP_none_value orc))
+
+/-- A `command` condition whose strings do not interpolate (a back-reference to a group that does not exist) is an error
+and runs nothing. -/
+theorem C13_command_interpolation_error (env : Env) (root : Msg) (lno : Nat) (argv : List Bytes) (part : Nat) (m : Msg) (st : St)
+    (hav : argv.mapM (interpolate st.ml none) = none) :
+    eval env root (.command lno argv) part m st = (.error, st) := by
+  rw [Proofs.eval_command, hav]
+
+/-- An environment whose command oracle is `exec()` on the given `fork` / `waitpid` results. -/
+def exampleCommandEnv (f w : Res) : Env where
+  rx := fun _ _ => .nomatch
+  command := fun _ => Model.execValue true f w
+  isDir := fun _ => false
+  now := 0
+  strptime := fun _ => none
+  zoneName := fun _ => none
+  fileTime := fun _ => none
+  dryrun := false
+  path := []
+
+def exampleCommandVerdict (f w : Res) : Tri :=
+  (eval (exampleCommandEnv f w) (parseMessage []) (.command 1 [[120]]) 0 (parseMessage []) { ml := [], flags := ⟨0, 0⟩ }).1
+
+/-- Non-vacuity of `C13_command_status` and the table of the statuses the checks exercise: `command "x"` with a child that
+exits 0 / 1 / 126 / 127 / 128 / 129 / 200 / 255, dies of SIGTERM / SIGKILL / SIGSEGV (with core), cannot be forked,
+cannot be waited for. -/
+example :
+    ([[120]].mapM (interpolate [] none) = some [[120]]) ∧
+    [0, 1, 126, 127, 128, 129, 200, 255].map (fun c => exampleCommandVerdict (.ok 7) (.ok (c * 256))) =
+      [.match, .nomatch, .nomatch, .error, .nomatch, .nomatch, .nomatch, .nomatch] ∧
+    [15, 9, 11 + 128].map (fun s => exampleCommandVerdict (.ok 7) (.ok s)) = [.nomatch, .nomatch, .nomatch] ∧
+    exampleCommandVerdict (.err "EAGAIN") (.ok 0) = .error ∧ exampleCommandVerdict (.ok 7) (.err "ECHILD") = .error := by
+  simp only [exampleCommandVerdict, Proofs.eval_command]
+  decide +kernel
+
+/-- The hypotheses of `C13_command_status` / `_run` are satisfiable: a child killed by SIGKILL (wait status 9) is "no match". -/
+example :
+    (eval (exampleCommandEnv (.ok 7) (.ok 9)) (parseMessage []) (.command 1 [[120]]) 0 (parseMessage []) { ml := [], flags := ⟨0, 0⟩ }).1 = .nomatch :=
+  (C13_command_status (exampleCommandEnv (.ok 7) (.ok 9)) (parseMessage []) 1 [[120]] [[120]] 0 (parseMessage []) { ml := [], flags := ⟨0, 0⟩ }
+    (by decide +kernel) true (.ok 7) (.ok 9) rfl).2.2.1.2 (.inr (.inl ⟨9, by decide +kernel⟩))
 
 /-! ## The argument vector is exactly what was configured -/
 
